@@ -45,14 +45,78 @@ CONFORMS = {
 NUM_MEMBERS = {'NumType': (int, float)}   # operand classes standing for several run-time types
 
 
-def abstract_result(sym, mod, fn_name):
-    """Abstract a cell's result function by its return expressions."""
+def executed_result(sym, mod, fn, container_problems=None):
+    """A cell's result function executed abstractly on model operands (both with elements of unrelated types, left
+    empty, right empty): each result is ('operand', i) - a clone of an operand -, ('class', name) - a newly built pedal
+    type -, or ('not-a-type', text). None if the function lies outside the interpreter's fragment."""
+    from .. import symexec
+    from ..fdeval import Obj as _Obj, Raised as _Raised, Inconclusive as _Inc
+
+    def elem_type(name):
+        t = _Obj('type:' + name, __tname__=name)
+        for nm in ('clone', 'shallow_clone', 'clone_mutably'):
+            symexec.method(t, nm, lambda *a, **k: elem_type(name))
+        return t
+
+    def operand(i, empty, elem):
+        o = _Obj('operand%d' % i, is_empty=empty, element_type=None if empty else elem_type(elem),
+                 element_types=[] if empty else [elem_type(elem)], __operand__=i)
+        o.attrs['__open__'] = True
+
+        def clone(*a, **k):
+            c = _Obj('clone of operand%d' % i, **{k_: v for k_, v in o.attrs.items() if not k_.startswith('method:')})
+            c.attrs['clone_of'] = i
+            for nm in ('clone', 'shallow_clone', 'clone_mutably'):
+                symexec.method(c, nm, clone)
+            return c
+        for nm in ('clone', 'shallow_clone', 'clone_mutably'):
+            symexec.method(o, nm, clone)
+        return o
+    out = set()
+    for l_empty, r_empty in ((False, False), (True, False), (False, True)):
+        left, right = operand(0, l_empty, 'IntType'), operand(1, r_empty, 'StrType')
+        same = lambda a, b: isinstance(a, _Obj) and isinstance(b, _Obj) and \
+            a.attrs.get('__tname__') == b.attrs.get('__tname__')
+        fd = symexec.new_fd(sym, mod, calls={'is_subtype': same, 'tuple': lambda x=(): tuple(x), 'list': lambda x=(): list(x)})
+        try:
+            res = fd.call_function(fn, [left, right])
+        except _Raised as e:
+            out.add(('not-a-type', 'raises %s' % e.kind))
+            continue
+        except _Inc:
+            return None
+        if isinstance(res, _Obj) and 'clone_of' in res.attrs:
+            out.add(('operand', res.attrs['clone_of']))
+            src = (left, right)[res.attrs['clone_of']]
+            if container_problems is not None and not src.attrs['is_empty'] and \
+                    not isinstance(res.attrs.get('element_type'), _Obj):
+                container_problems.append("with %s left and %s right operand the resulting container's element type is "
+                                          "%r" % ('an empty' if l_empty else 'a non-empty',
+                                                  'an empty' if r_empty else 'a non-empty', res.attrs.get('element_type')))
+        elif isinstance(res, _Obj) and '__operand__' in res.attrs:
+            out.add(('operand', res.attrs['__operand__']))
+        elif isinstance(res, _Obj) and '__classdef__' in res.attrs:
+            cd = res.attrs['__classdef__']
+            ci = sym.classes.get((getattr(getattr(cd, '_module', None), 'name', None), getattr(cd, '_qualname', cd.name)))
+            names = [k.name for k in sym.mro(ci)] if ci is not None else []
+            out.add(('class', cd.name) if 'Type' in names else ('not-a-type', 'an instance of %s' % cd.name))
+        else:
+            out.add(('not-a-type', repr(res)))
+    return out
+
+
+def abstract_result(sym, mod, fn_name, container_problems=None):
+    """A cell's result function: executed on model operands where possible, else abstracted by its return
+    expressions."""
     r = sym.resolve_name(mod, fn_name)
     if isinstance(r, ClassInfo):
         return {('class', r.name)}
     if not (isinstance(r, tuple) and r[0] == 'func'):
         raise AnalysisError("C19 R1: cell function %s does not resolve" % fn_name)
     fn = r[2]
+    executed = executed_result(sym, r[1], fn, container_problems)
+    if executed is not None:
+        return executed
     params = [a.arg for a in fn.args.args]
     out = set()
     for n in body_walk(fn):
